@@ -33,17 +33,24 @@ pub fn classify_reply(p: &[u8], tcp: bool) -> Responder {
     if p.len() >= 20 && p[0] == 1 && p[1] == 1 && be16(p, 2) as usize == p.len() - 20 {
         return Responder::Stun;
     }
-    if tcp {
-        if p.len() >= 16 && p[0] & 0x80 != 0 && (be32(p, 0) & 0x7fff_ffff) as usize == p.len() - 4 && be32(p, 8) == 1 {
-            return Responder::Rpc;
-        }
-    } else if p.len() >= 12 && be32(p, 4) == 1 && be32(p, 8) == 0 {
+    // the framing follows the signature that matched (RPC-over-TCP form may arrive in a datagram
+    // and vice versa), so both framings are recognised on both transports
+    let _ = tcp;
+    if rpc_record_marked(p) {
+        return Responder::Rpc;
+    }
+    if p.len() >= 12 && be32(p, 4) == 1 && be32(p, 8) == 0 {
         return Responder::Rpc;
     }
     if p.len() >= 12 && p[2] & 0x80 != 0 {
         return Responder::Dns;
     }
     Responder::Unknown
+}
+
+/// RPC reply framed by a record mark (last-fragment bit, length = rest, msg_type REPLY)
+pub fn rpc_record_marked(p: &[u8]) -> bool {
+    p.len() >= 16 && p[0] & 0x80 != 0 && (be32(p, 0) & 0x7fff_ffff) as usize == p.len() - 4 && be32(p, 8) == 1 && be32(p, 12) == 0
 }
 
 // ---------------------------------------------------------------------------------------
